@@ -168,5 +168,8 @@ def scen : Scen MState Mon where
   obs _ := []
   monInit _ := {}
   monitor := monitorOp
+  -- stateless (every op is an independent evaluation, no observation lines): a disagreement never stops
+  -- the comparison of the following ops
+  resync := some fun m _ => some m
 
 end CwPlus.Driver.Cw3Lib
